@@ -98,6 +98,15 @@ func main() {
 			copyFile(filepath.Join(*shim, e.Name()), filepath.Join(sd, e.Name()))
 		}
 	}
+	// the sync/atomic stand-in
+	if aents, err := os.ReadDir(filepath.Join(*shim, "atomic")); err == nil {
+		os.MkdirAll(filepath.Join(sd, "atomic"), 0o755)
+		for _, e := range aents {
+			if strings.HasSuffix(e.Name(), ".go") {
+				copyFile(filepath.Join(*shim, "atomic", e.Name()), filepath.Join(sd, "atomic", e.Name()))
+			}
+		}
+	}
 	fmt.Printf("xpinstr: module=%s files=%d funcs=%d sync_imports=%d go_statements=%d\n", modPath, len(files), nfunc, nsync, ngo)
 	if ngo > 0 {
 		die("the package starts goroutines itself (%d go statements); the simulator cannot schedule them", ngo)
@@ -156,6 +165,11 @@ func instrument(in, out, shimPath string, enter bool) (nfunc, nsync, ngo int) {
 				text = "sync " + text
 			}
 			edits = append(edits, edit{off(imp.Path.Pos()), len(imp.Path.Value), text})
+			nsync++
+		}
+		if p == "sync/atomic" {
+			// package name is already "atomic"
+			edits = append(edits, edit{off(imp.Path.Pos()), len(imp.Path.Value), strconv.Quote(shimPath + "/atomic")})
 			nsync++
 		}
 	}
